@@ -34,9 +34,19 @@ LEVEL_TEXT = (
     "Static decision of the quoting layer and framing constants behind C06, on symbolic summaries of the functions "
     "(path condition -> returned term; private helpers inlined, loops abstracted; a private generator helper is read as "
     "the loop that produces its items - fused into the loop that consumes it, or as the list of what it yields - and a "
-    "two-entry table indexed by a truth value as the choice between its entries), independent of how they are spelled: "
+    "two-entry table indexed by a truth value as the choice between its entries; a `for` over a short sequence known in "
+    "full - a tuple / list display, a constant tuple of the module - as the sequence of its iterations; a function defined "
+    "inside a function as a helper whose free variables are bound where it is called; a text / number constant of the "
+    "module as that constant; `with contextlib.suppress(..)` as try / except / pass; map / filter / starmap over a private "
+    "helper passed by name as the generator expression; a writer that returns the result of another public writer as it "
+    "is, as that writer with the arguments put in), independent of how they are spelled: "
     "(R6.1) the alphabet that quote_header_value leaves unquoted is contained in RFC tchar and in every option parser's "
-    "token class and disjoint from all separators, and the bare return is taken only under that test; (R6.2) on every "
+    "token class and disjoint from all separators, and the bare return is taken only under that test (a token test that "
+    "is none of the recognised spellings is decided by evaluation: the alphabet is then every character of a value the "
+    "default call returns unchanged, over all one-character strings below U+3000 and all strings up to length 3 over two "
+    "of them plus the separators; where no test of the first character after `=` is written out, the quoted alternative "
+    "is decided by evaluating parse_options_header on 7 headers with quoted values); where a summary abstracts too much "
+    "to be evaluated (a text assembled piece by piece in a list) the function itself is evaluated statement by statement; (R6.2) on every "
     "string up to length 4 over {backslash, quote, letter, ';', ',', space, and every character a rewriting constant "
     "mentions - arguments of replace and the entries of a translate table, i.e. a dict or str.maketrans(...) constant "
     "of the module, a local or an inline one} the quoted form is an RFC 9110 quoted-string that decodes to the value, and unquote_header_value, the "
@@ -66,7 +76,7 @@ LEVEL_TEXT = (
     "(f-string, concatenation, % / format), '\"' + text + '\"' decodes as an RFC 9110 quoted-string to the value the text is "
     "computed from, on every string up to length 3 over {backslash, quote, letter, ',', ' '} that satisfies the "
     "conditions the text is written under - a value interpolated raw, or escaped for one of the two characters only, "
-    "fails; the entity-tag writers are exempt (their reader takes the quoted text literally, the domain has no '\"' in "
+    "fails (a quoted text assembled fragment by fragment in a list has no template: the writer itself is evaluated on those strings, a quoted result must decode to the value); the entity-tag writers are exempt (their reader takes the quoted text literally, the domain has no '\"' in "
     "tags); (R6.10) whole-function laws for typed single values, evaluated by the Machine with CPython's datetime / "
     "email.utils semantics on constants: parse_date(http_date(d)) is the aware datetime of the same instant and "
     "parse_if_range_header(IfRange(date=d).to_header()) carries that date and no tag, for naive datetimes on every "
@@ -190,10 +200,17 @@ def _first_bad(pairs: t.Iterable[tuple[t.Any, t.Any, t.Any]]) -> str:
 
 
 def _apply(conc: Conc, summ: Summary, args: list[t.Any], kwargs: dict[str, t.Any] | None = None) -> t.Any:
+    """value of the summarised function on constants; where the summary abstracts too much to be evaluated (a text
+    assembled piecewise in a list, order-dependent), the function itself is evaluated statement by statement."""
     try:
         return conc.apply(summ, args, kwargs or {})
     except Raised as r:
         return ("<raises>", r.kind)
+    except H.Unknown:
+        machine = getattr(conc, "machine", None)
+        if machine is None or summ.fi.cls is not None:
+            raise
+        return machine.outcome(lambda: machine.run(summ.fi, list(args), dict(kwargs or {})))
 
 
 # ---------------------------------------------------------------------------------------------------------------
@@ -204,6 +221,8 @@ def run(ctx: Ctx) -> None:
     folder = H.TableFolder(repo)
     sums = Summaries(repo, folder)
     conc = Conc(sums)
+    machine = H.Machine(repo, folder)
+    conc.machine = machine  # type: ignore[attr-defined]
     for rid, text in {
         "R6.1": "alphabet left bare by quote_header_value is within RFC tchar, within the token class of every option/list parser, and disjoint from separators",
         "R6.2": "the quoted form is an RFC quoted-string decoding to the value, and every unquoting step gives the value back (bounded check on summaries)",
@@ -238,7 +257,12 @@ def run(ctx: Ctx) -> None:
     for o in bare:
         tests = [r for a, tr in o.conds for r in [_alphabet_test(a, subj, conc)] if r is not None and r[1] == tr]
         if not tests:
-            other = [a for a, _ in o.conds if a not in subj and any(x in subj for x in walk(a))]
+            sem = _evaluated_alphabet(Q, conc)
+            if sem is not None:
+                T = T | sem
+                guard_facts.append(f"bare return under `{show_conds(o.conds)}` (evaluated: the characters of the values it lets through)")
+                continue
+            other = [a for a, _ in o.conds if a not in subj and any(x in subj for x in walk_deep(a))]
             if other:
                 raise AnalysisError(f"quote_header_value: the bare return is guarded by a test that is not understood: {show(other[0])}")
             guard_ok = False
@@ -266,7 +290,7 @@ def run(ctx: Ctx) -> None:
     ctx.ob("R6.1", "option parser token class stops at separators", not (tcls & set(';"')), f"class & {{; \"}} = {sorted(tcls & set(';\"'))}", tok_re[4], tok_re[3], "token class stops")
     kcls = {chr(c) for c in key_re[2]}
     ctx.ob("R6.1", "option parser key class contains the token alphabet and not '='", T <= kcls and "=" not in kcls, f"{key_re[0]}: T - class = {sorted(T - kcls)}", key_re[4], key_re[3], "key class")
-    alt_ok, alt_fact = _quoted_alternative(po, tok_re)
+    alt_ok, alt_fact = _quoted_alternative(po, tok_re, machine)
     ctx.ob("R6.1", "option parser tries the quoted form when the token form fails", alt_ok, alt_fact, po, po.node, "quoted alternative")
 
     # R6.2 / R6.3: bounded round trip through the summaries
@@ -311,6 +335,9 @@ def run(ctx: Ctx) -> None:
 
     def scanned_pairs(PO_: Summary) -> tuple[list[H.Outcome], list[Term]]:
         kvs_ = _item_outcomes(PO_, lambda i: i[0] == "kv")
+        # an iteration over a collection that has no item on its path (the list handed over before anything was
+        # appended) stores nothing
+        kvs_ = [o for o in kvs_ if not any(coll_items(x[1]) == frozenset() for x in _its(walk((o.term, o.conds))))]
         return kvs_, [x for x in _its(walk(tuple((o.term, o.conds) for o in kvs_))) if coll_items(x[1]) and all(i[0] == "tuple" and len(i[1]) == 2 for _, i in coll_items(x[1]))]  # type: ignore[union-attr]
 
     kvs, pair_its = scanned_pairs(PO)
@@ -320,14 +347,19 @@ def run(ctx: Ctx) -> None:
         kvs, pair_its = scanned_pairs(Summaries(repo, folder, fuse_generators=False).of(PO.fi))
     if not kvs:
         raise AnalysisError("parse_options_header: no option is stored")
-    if len(pair_its) != 1:
-        raise AnalysisError(f"parse_options_header: expected one loop over the scanned (key, value) pairs, found {len(pair_its)}")
-    E = pair_its[0]
+    if not pair_its:
+        raise AnalysisError("parse_options_header: no loop over the scanned (key, value) pairs is found")
+    # several collections of scanned pairs = the scanner hands its list over on several paths (a helper that returns it
+    # from inside its loop): the element of each of them is the scanned pair
+
+    def scanned(pair: tuple[str, str]) -> dict[Term, t.Any]:
+        return {E_: pair for E_ in pair_its}
+
     res = []
     for s_ in po_smp:
-        res.append((s_, _pick_value(conc, kvs, {E: ("k", H.rfc_quote(s_))}), ("k", s_)))
+        res.append((s_, _pick_value(conc, kvs, scanned(("k", H.rfc_quote(s_)))), ("k", s_)))
     ctx.ob("R6.2", "parse_options_header unquote chain has both inverse pairs", all(g == w_ for _, g, w_ in res), f"option stored for the scanned pair ('k', RFC-quoted s) on {len(res)} strings; {_first_bad(res)}", PO.fi, PO.fi.node, "unquote chain")
-    res = [(s_, _pick_value(conc, kvs, {E: ("k", s_)}), ("k", s_)) for s_ in toks]
+    res = [(s_, _pick_value(conc, kvs, scanned(("k", s_))), ("k", s_)) for s_ in toks]
     ctx.ob("R6.2", "parse_options_header strips exactly the surrounding quotes before unescaping", all(g == w_ for _, g, w_ in res), f"option stored for the scanned pair ('k', token); {_first_bad(res)}", PO.fi, PO.fi.node, "unquote strip")
 
     # list parser: quotes stripped, escapes already undone by the stdlib splitter
@@ -449,7 +481,7 @@ def run(ctx: Ctx) -> None:
 
     HS = S("datastructures.structures.HeaderSet.to_header")
     PS = S("http.parse_set_header")
-    hj, hitems = _joined(HS, "HeaderSet.to_header")
+    hj, hitems = _joined(HS, "HeaderSet.to_header", sums)
     quoted_items = bool(hitems) and all(_is_call_to(i, "quote_header_value") and i[2] and any(y[0] == "it" for y in walk(i[2][0])) for _, i in hitems)
     reads = any(_is_call_to(x, "HeaderSet") and any(_is_call_to(y, "parse_list_header") for y in walk(x)) for o in PS.returns for x in walk(o.term))
     ctx.ob("R6.5", "HeaderSet joined with ', ' of quoted items, parsed by the list parser", hj == {", "} and quoted_items and reads, f"join={sorted(hj)} items quoted={quoted_items} parse_set_header -> HeaderSet(parse_list_header(..))={reads}", HS.fi, HS.fi.node, "headerset")
@@ -536,7 +568,6 @@ def run(ctx: Ctx) -> None:
 
     _quoting_discipline(ctx, repo, sums, conc, S)
 
-    machine = H.Machine(repo, folder)
     _options_law(ctx, machine, S, po_alpha, 3 if len(po_alpha) <= 8 else 2)
     _range_law(ctx, machine, S, repo)
     _typed_value_laws(ctx, machine, S, repo)
@@ -938,6 +969,23 @@ def _quoting_discipline(ctx: Ctx, repo: t.Any, sums: Summaries, conc: Conc, S: t
                     callee = sums.func_by_fq(x[1][1])
                     if callee is not None and callee.fq not in done and not callee.name.endswith("etag"):
                         todo.append(callee.fq.removeprefix("werkzeug."))
+        pieces = [x for o in W.returns for x in walk(o.term) if x[0] == "join" and is_cstr(x[1]) and cv(x[1]) == "" and any(is_cstr(i) and '"' in cv(i) for _, i in (coll_items(x[2]) or ()))]
+        if pieces:
+            # the quoted text is assembled piece by piece (a list of fragments with the quotes among them, joined with
+            # ''): there is no template to take the text between the quotes from.  The writer itself is evaluated: what it
+            # returns for a value is the value (bare) or a quoted-string that decodes to it
+            if W.fi.cls is not None or not W.params:
+                raise AnalysisError(f"{W.fi.fq}: a text with double quotes is assembled piecewise ({show(pieces[0])[:80]}): not understood")
+            nsites += 1
+            machine = getattr(conc, "machine")
+            flags = [p_ for p_ in W.params[1:] if is_c(W.defaults.get(p_, NONE)) and isinstance(cv(W.defaults[p_]), bool)]
+            rows = []
+            for kw in [{}] + [{p_: not cv(W.defaults[p_])} for p_ in flags]:
+                for s_ in smp:
+                    r = machine.outcome(lambda: machine.run(W.fi, [s_], dict(kw)))
+                    dec = s_ if r == s_ and kw == {} else H.rfc_unquote_full(r) if isinstance(r, str) else r
+                    rows.append(((s_, kw), dec, s_))
+            ctx.ob(R, f"text between double quotes is the escaped form of its value (assembled piecewise in {W.fi.name})", all(g == w_ for _, g, w_ in rows), f"`{show(pieces[0])[:100]}`: {W.fi.name}(s) evaluated on {len(rows)} calls over {sorted(set(_QUOTE_ALPHABET))}, a quoted result decoded as an RFC 9110 quoted-string; {_first_bad(rows)}", W.fi, W.fi.node, "quoted text assembled piecewise")
         for part, conds, tmpl in _quoted_sites(W):
             nsites += 1
             leaves = _leaves(part)
@@ -1028,6 +1076,31 @@ def _alphabet_test(a: Term, subj: set[Term], conc: Conc) -> tuple[frozenset[str]
     return None
 
 
+def _evaluated_alphabet(Q: Summary, conc: Conc) -> frozenset[str] | None:
+    """the bare alphabet by meaning, for a token test that is not one of the recognised spellings: every character that
+    occurs in a value the default call returns unchanged - decided on every one-character string below U+3000 and on
+    every string up to length 3 over two of those characters plus the separators, so a test that lets a separator
+    through behind / before an allowed character (a prefix match, `any` for `all`) puts the separator in the set.
+    None when the summary cannot be evaluated."""
+
+    def bare(s_: str) -> bool:
+        try:
+            return conc.apply(Q, [s_], {}) == s_
+        except Raised:
+            return False
+
+    try:
+        singles = {chr(c) for c in range(0x3000) if bare(chr(c))}
+        reps = sorted(singles & set("a-"))[:2] or sorted(singles)[:2]
+        out = set(singles)
+        for s_ in H.samples(reps + ['"', "\\", " ", ";", ",", "=", "\u00e9"], 3):
+            if len(s_) > 1 and bare(s_):
+                out |= set(s_)
+    except H.Unknown:
+        return None
+    return frozenset(out)
+
+
 def _family(fi: FuncInfo) -> list[FuncInfo]:
     """fi plus the private module-level helpers it (transitively) calls: an extracted helper is read as part of fi."""
     out = [fi]
@@ -1106,7 +1179,13 @@ def _first_char_is_quote(e: ast.AST) -> str | None:
     return None
 
 
-def _quoted_alternative(po: FuncInfo, tok_re) -> tuple[bool, str]:
+_QUOTED_FORMS = [
+    ('h; k="a b"', ("h", {"k": "a b"})), ('h; k=""', ("h", {"k": ""})), ('h; k="a"', ("h", {"k": "a"})), ('h; k=";"', ("h", {"k": ";"})),
+    ('h; k="a;b"; j=c', ("h", {"k": "a;b", "j": "c"})), ('h; j=c; k="a b"', ("h", {"j": "c", "k": "a b"})), ('h; k=" "; j="b"', ("h", {"k": " ", "j": "b"})),
+]
+
+
+def _quoted_alternative(po: FuncInfo, tok_re, machine: H.Machine | None = None) -> tuple[bool, str]:
     """after the token-value regex failed to match, the parser looks for an opening quote."""
     fam = _family(po)
     found = []
@@ -1115,6 +1194,12 @@ def _quoted_alternative(po: FuncInfo, tok_re) -> tuple[bool, str]:
         for tn in cfg.tests():
             if tn.kind == "test" and _first_char_is_quote(tn.ast) is not None:
                 found.append((g, cfg, tn))
+    if not found and machine is not None:
+        # no test of the first character is written out (the quoted form may be recognised by a regex, a helper that
+        # returns the end of the quoted string ...): decided by meaning - values that are not tokens, written in the
+        # quoted form, are read by the whole function
+        rows = [(text, machine.outcome(lambda: machine.run(po, [text])), want) for text, want in _QUOTED_FORMS]
+        return all(g == w_ for _, g, w_ in rows), f"no test of the first character after `=` is written out; parse_options_header evaluated on {len(rows)} headers whose values are quoted strings: {_first_bad(rows)}"
     if not found:
         return False, "no test whether the rest starts with a double quote (x[:1] == '\"', x[0] == '\"', x.startswith('\"'), x.find('\"') == 0)"
     call, g = tok_re[3], tok_re[4]
@@ -1226,15 +1311,75 @@ def _parsed_offsets(v: Term, out: list[int], where: str) -> None:
 # R6.5 helpers
 
 
-def _joined(summ: Summary, label: str) -> tuple[set[str], list[tuple[tuple, Term]]]:
+def _delegated(summ: Summary, sums: Summaries | None) -> list[H.Outcome]:
+    """the return outcomes of a writer; where it returns the result of another function of the package as it is
+    (`return http.dump_header(self._headers)`), the outcomes of that function with the arguments put in."""
+    out: list[H.Outcome] = []
+    for o in summ.returns:
+        callee = sums.func_by_fq(_gfq(o.term[1]) or "") if sums is not None and o.term[0] == "call" else None
+        if callee is None or callee.cls is not None or any(kw[1] == "**" for kw in o.term[3]):
+            out.append(o)
+            continue
+        cs = sums.of(callee)  # type: ignore[union-attr]
+        m: dict[str, Term] = dict(zip(cs.params, o.term[2]))
+        m.update({kw[1]: kw[2] for kw in o.term[3]})
+        for p_ in cs.params:
+            if p_ not in m and p_ in cs.defaults:
+                m[p_] = cs.defaults[p_]
+        if any(p_ not in m for p_ in cs.params):
+            out.append(o)
+            continue
+        for oc in cs.returns:
+            out.append(H.Outcome("return", tuple(o.conds) + tuple((H.subst(a, m), tr) for a, tr in oc.conds), H.subst(oc.term, m), o.node))
+    return out
+
+
+def _attr_kinds(ci: t.Any, attr: str) -> set[str]:
+    """what is ever stored in `self.<attr>` by the methods of the class: 'list' (list(..) / display / comprehension),
+    'dict', 'set', or '?' (anything else)."""
+    kinds: set[str] = set()
+    for m_ in ci.methods.values():
+        selfn = m_.params[0] if m_.params else None
+        for n in ast.walk(m_.node):
+            tgts = n.targets if isinstance(n, ast.Assign) else [n.target] if isinstance(n, (ast.AnnAssign, ast.AugAssign)) else []
+            for tg in tgts:
+                for x in ast.walk(tg):
+                    if isinstance(x, ast.Attribute) and x.attr == attr and isinstance(x.value, ast.Name) and x.value.id == selfn and isinstance(x.ctx, ast.Store):
+                        v = getattr(n, "value", None)
+                        if isinstance(n, ast.AugAssign) or tg is not x:
+                            kinds.add("?")
+                        elif isinstance(v, (ast.List, ast.ListComp)) or (isinstance(v, ast.Call) and dotted(v.func) in ("list", "sorted")):
+                            kinds.add("list")
+                        elif isinstance(v, (ast.Dict, ast.DictComp)) or (isinstance(v, ast.Call) and dotted(v.func) == "dict"):
+                            kinds.add("dict")
+                        elif isinstance(v, (ast.Set, ast.SetComp)) or (isinstance(v, ast.Call) and dotted(v.func) in ("set", "frozenset")):
+                            kinds.add("set")
+                        else:
+                            kinds.add("?")
+    return kinds
+
+
+def _type_test_refuted(conds: t.Iterable[tuple[Term, bool]], ci: t.Any) -> bool:
+    """the path asks `isinstance(self.<attr>, dict)` to hold for an attribute that only ever holds lists (or the like)."""
+    for a, tr in conds:
+        if a[0] == "call" and _gfq(a[1]) == "builtins.isinstance" and len(a[2]) == 2 and a[2][0][0] == "attr" and a[2][0][1][0] == "p" and _gfq(a[2][1]) in ("builtins.dict", "builtins.list", "builtins.set"):
+            kinds = _attr_kinds(ci, a[2][0][2])
+            if kinds and "?" not in kinds and ((_gfq(a[2][1]).rsplit(".", 1)[1] in kinds) != tr) and len(kinds) == 1:  # type: ignore[union-attr]
+                return True
+    return False
+
+
+def _joined(summ: Summary, label: str, sums: Summaries | None = None) -> tuple[set[str], list[tuple[tuple, Term]]]:
     """separators and items of the join(s) that make up the returned text."""
     seps: set[str] = set()
     items: list[tuple[tuple, Term]] = []
-    for o in summ.returns:
+    for o in _delegated(summ, sums):
+        if sums is not None and summ.fi.cls is not None and _type_test_refuted(o.conds, summ.fi.cls):
+            continue
         js = [x for x in walk(o.term) if x[0] == "join"]
         if not js:
-            if is_c(o.term):
-                continue
+            if is_c(o.term) or o.term[0] == "p":
+                continue  # nothing to join on this path: a constant, or the text handed in (the bare header value)
             raise AnalysisError(f"{label}: returned text is not a join: {show(o.term)[:120]}")
         for j in js:
             if not is_cstr(j[1]):
